@@ -52,11 +52,15 @@ def main():
         if getattr(mod, 'EXTRACT', None):
             import extract
             try:
+                _watchdog(600)
                 extract.run(mod.EXTRACT, ctx)
-            except lib.InfraError:
+            except (lib.InfraError, KeyboardInterrupt, SystemExit):
                 raise
-            except Exception as e:  # a table function raised: broken tie, handled by the search
+            except BaseException as e:  # a table function raised or hangs: broken tie, handled by the search
                 ctx.disagree('extraction failed', repr(e), None, traceback.format_exc()[-1500:])
+            finally:
+                import signal as _sig
+                _sig.alarm(0)
         audit = lib.build_and_audit(pid, getattr(mod, 'EXTRA_TARGETS', ()), getattr(mod, 'EXTRA_PROPS', ()))
         try:
             _watchdog(3600 if tier == 'thorough' else 900)
